@@ -1,4 +1,6 @@
-(** ResidualObs.v — the observers the residual updater depends on:
+(** ResidualObs.v — the observers the residual updater depends on
+    (model/Residual.v, initialisation as repaired by 196fa58: the counts are
+    taken from the dispatcher's own unscheduled operations):
     the counters of [IsCompletedObserver] count the UNSCHEDULED operations
     (of a machine: the operations that list it; of a job), and a flag is up
     exactly when that count reached zero on a machine / job that has at least
@@ -254,14 +256,18 @@ Section Fresh.
     - destruct hj; [|discriminate]. intros l H. inversion H. reflexivity.
   Qed.
 
+  (** since the repair the counts come from the dispatcher itself *)
+  Lemma r0_eq hm hj : remops_init I (unscheduled_ops I d0) hm hj = r0 hm hj.
+  Proof. unfold r0, D0, d0. rewrite unscheduled_init, all_deques_concat. reflexivity. Qed.
+
   Lemma new_remops_spec hm hj ch ch' r : U_ok ch -> new_remops I d0 hm hj ch = (ch', r) ->
     r = r0 hm hj /\ exists rest, ch' = ch ++ DRemOps r :: rest /\ UR_rest rest.
   Proof.
     intros HU. unfold new_remops.
     destruct (get_or_new_unsched I d0 (ch ++ [DRemOps (mkro None None)])) as [ch2 dq] eqn:E.
-    intros H. inversion H; subst. clear H.
+    rewrite r0_eq. intros H. inversion H; subst. clear H.
     apply gnu_spec in E.
-    - destruct E as [-> (rest & -> & Hr)]. split; [reflexivity|]. exists rest. split; [|exact Hr].
+    - destruct E as [_ (rest & -> & Hr)]. split; [reflexivity|]. exists rest. split; [|exact Hr].
       rewrite <- app_assoc. simpl. apply upd_app_mid.
     - intros dq' Hin. apply in_app_iff in Hin. destruct Hin as [Hin|[Hin|[]]]; [apply HU; exact Hin|discriminate].
   Qed.
@@ -300,10 +306,9 @@ Section Fresh.
     apply gnr_spec in E.
     - destruct E as [[G1 G2] (rest & -> & Hr)].
       eexists. exists rest. split; [rewrite <- app_assoc; simpl; apply upd_app_mid|].
-      split; [exact Hr|]. unfold ic_init, c_ok. cbn [ic_m ic_j ic_rem_m ic_rem_j ic_flag_m ic_flag_j].
-      split; [|split; reflexivity]. split; intros ->.
-      + rewrite (G1 eq_refl). split; reflexivity.
-      + rewrite (G2 eq_refl). split; reflexivity.
+      split; [exact Hr|]. rewrite r0_eq. unfold ic_init, c_ok, r0, remops_init, D0. rewrite all_deques_concat.
+      cbn [ic_m ic_j ic_rem_m ic_rem_j ic_flag_m ic_flag_j ro_m ro_j].
+      split; [|split; reflexivity]. split; intros ->; split; reflexivity.
     - intros dq Hin. apply in_app_iff in Hin. destruct Hin as [Hin|[Hin|[]]]; [apply HU; exact Hin|discriminate].
     - intros r' Hin. apply in_app_iff in Hin. destruct Hin as [Hin|[Hin|[]]]; [apply HR; exact Hin|discriminate].
   Qed.
